@@ -2,7 +2,7 @@
    ONLY statements: each theorem is closed by `exact` of a lemma proved elsewhere and followed by Print Assumptions. *)
 From Coq Require Import ZArith NArith List Bool Lia Permutation SpecFloat Sorting FMapPositive.
 Import ListNotations.
-Require Import Base Strings Builtins PrintInt FloatText FloatTextProofs Float Interp Machine Spec Refine2 RunG RealText Num PrintDict HeapFacts Refine1 Pure IOSpec Cli.
+Require Import Base Strings Builtins PrintInt FloatText FloatTextProofs Float Interp Machine Spec Refine2 RunG RealText PrintSeq Num PrintDict HeapFacts Refine1 Pure IOSpec Cli.
 Open Scope Z_scope.
 (* reading the printed form of any integer in base 10 gives it back *)
 Theorem int_print_parse n :
@@ -61,6 +61,18 @@ Theorem read_what_was_printed (rec : list positive -> heap -> world -> task -> o
   runG rec value ip h w (bi_float sp [VStr (show_float f)]) = DoneG h w (inl (VFloat f)) 0.
 Proof. exact (RealText.read_what_was_printed rec sp f txt ip h w). Qed.
 Print Assumptions read_what_was_printed.
+
+(* a list prints its elements' texts in the order of the elements (for elements whose formatting is a state-free function pr) *)
+Theorem list_prints_in_order (rec : list positive -> heap -> world -> task -> out) (flag : bool) (pr : value -> list N) (PRINTS : forall ip h w x, rec ip h w (TComp (proc_body (PFormat x flag))) = Done h w (inl (VStr (pr x))) 0) l ip h w :
+  runG rec value ip h w (format_body (VList l) flag) = DoneG h w (inl (VStr ([91%N] ++ join s_sep (map pr l) ++ [93%N]))) 0.
+Proof. exact (PrintSeq.list_prints_in_order rec flag pr PRINTS l ip h w). Qed.
+Print Assumptions list_prints_in_order.
+
+(* an exception value likewise *)
+Theorem exception_prints_in_order (rec : list positive -> heap -> world -> task -> out) (flag : bool) (pr : value -> list N) (PRINTS : forall ip h w x, rec ip h w (TComp (proc_body (PFormat x flag))) = Done h w (inl (VStr (pr x))) 0) sps l ip h w :
+  runG rec value ip h w (format_body (VErr sps l) flag) = DoneG h w (inl (VStr (s_exc_open ++ join s_sep (map pr l) ++ s_exc_close))) 0.
+Proof. exact (PrintSeq.exception_prints_in_order rec flag pr PRINTS sps l ip h w). Qed.
+Print Assumptions exception_prints_in_order.
 
 (* the formatter's sorted entry list is the same for EVERY insertion order (any permutation of the printed entries): pair_le is a total order and insertion sort is canonical *)
 Theorem dict_print_order_free l l' :
